@@ -220,7 +220,10 @@ func decHistory(in []int64) history {
 var gvr = metav1.GroupVersionResource{Group: "scheduling.volcano.sh", Version: "v1beta1", Resource: "queues"}
 
 type world struct {
-	cfg     config
+	// set once an admitted request has closed a cycle of parent links: the real code's
+	// recursions over such a lister need not terminate, so nothing more is run (verdict 98)
+	poisoned bool
+	cfg      config
 	indexer cache.Indexer
 	inf     cache.SharedIndexInformer
 	lister  schedulinglister.QueueLister
@@ -297,6 +300,7 @@ const (
 	vCycle        = 19
 	vSubtreeDepth = 20
 	vNotInvoked   = 21
+	vNotRun       = 98
 )
 
 func classify(msg string) int64 {
@@ -372,6 +376,36 @@ func (w *world) call(ar admissionv1.AdmissionReview, withIndex bool) int64 {
 // parent index and through the lister fallback of GetQueuesByParent: they must
 // agree) and applies it to the lister as the API server would when admitted.
 func (w *world) step(r request) int64 {
+	if w.poisoned {
+		return vNotRun
+	}
+	v := w.step1(r)
+	if v == vAllowed && r.kind != kEnv {
+		w.poisoned = w.cyclic()
+	}
+	return v
+}
+
+// cyclic: some queue does not come to an end ("" / "root" / a missing queue) within 64 parent links
+func (w *world) cyclic() bool {
+	for _, o := range w.indexer.List() {
+		p := o.(*schedulingv1beta1.Queue).Spec.Parent
+		k := 0
+		for ; p != "" && p != "root" && k < 64; k++ {
+			po, ok, _ := w.indexer.GetByKey(p)
+			if !ok {
+				break
+			}
+			p = po.(*schedulingv1beta1.Queue).Spec.Parent
+		}
+		if k >= 64 {
+			return true
+		}
+	}
+	return false
+}
+
+func (w *world) step1(r request) int64 {
 	old := w.get(r.q.name)
 	if r.kind == kEnv {
 		if old == nil {
